@@ -258,6 +258,16 @@ def r_average(ctx, model):
             ctx.violation(f"average_over_modes.{batch}.{nq}x{np_}", w, "the weighted mode average", f"raises {e.exc_name} at {e.where}",
                           f"average_over_modes raises {e.exc_name} on a {label}", instance=label)
             continue
+        except AnalysisError as e:
+            on = getattr(e, "tolerance_test_on", None)
+            if on and any(x.startswith("W_") for x in on):
+                # an absolute-tolerance test applied to the q-point weights themselves
+                ctx.violation(f"average_over_modes.{batch}.{nq}x{np_}.weight-tolerance", w, "weights enter only through sum_q w_q X_q / sum_q w_q",
+                              f"numpy.isclose / allclose applied to the weights {on}",
+                              f"average_over_modes tests the q-point weights against an absolute tolerance (numpy.isclose's atol = 1e-8): q-points are kept or "
+                              f"dropped depending on the overall scale of the weights, so multiplying all weights by a common factor changes the result", instance=label)
+                continue
+            raise
         n += 1
         want = mode_average_reference(cells, ws, nq, np_)
         ok = not isinstance(out, ArrV) and is_zero(as_sym(out) - want)
